@@ -24,7 +24,9 @@ if os.environ.get("C14_PROPOSED_FINDINGS"):
         self.open += [f for f in extra if f.get("status", "open") == "open" and f.get("id") not in have]
     common.Findings.__init__ = _init
 
-MODELLED = {"ethernet", "vlan", "arp", "ipv4", "udp", "tcp", "icmp", "echo", "unreach", "time_exceeded"}
+CORE = {"ethernet", "vlan", "arp", "ipv4", "udp", "tcp", "icmp", "echo", "unreach", "time_exceeded"}       # Model/PacketHdr.lean
+EXT = {"llc", "mpls", "lldp", "eapol", "eap", "ipv6", "icmpv6", "echo6", "gre", "vxlan", "igmp", "rip"}        # Model/PacketExt.lean
+MODELLED = CORE | EXT
 TERMINAL = {"bytes", "none"}
 UDP_SPECIAL = {67, 68, 53, 5353, 520, 4789}
 ETH_PARSED = {0x8100, 0x0806, 0x8035, 0x0800, 0x86dd, 0x88cc, 0x888e, 0x8847, 0x8848}
@@ -588,16 +590,23 @@ class C14(Check):
 
     # ------------------------------------------------------------------ model
     def modelled(self, case):
-        return case["kind"] == "cksum" or all(L["k"] in MODELLED or L["k"] in TERMINAL for L in case["layers"])
+        if case["kind"] == "cksum": return True
+        kinds = CORE if case["kind"] == "mutparse" else MODELLED
+        return all((L["k"] in kinds and not L.get("ext")) or L["k"] in TERMINAL for L in case["layers"])
+
+    @staticmethod
+    def _mlayer(L):
+        L = {k: v for k, v in L.items() if not k.startswith("_")}
+        if L["k"] == "gre": L["csum"] = True if L["csum"] else None
+        return L
 
     def model_request(self, case):
         if case["kind"] == "cksum":
             return {"op": "cksum", "data": case["data"], "start": case["start"], "skip": case["skip"]}
         if not self.modelled(case): return None
         if case["kind"] == "mutparse":
-            return {"op": "mutparse", "top": case["top"], "mut": case["mut"],
-                    "layers": [{k: v for k, v in L.items() if not k.startswith("_")} for L in case["layers"]]}
-        return {"op": "stack", "top": case["top"], "layers": [{k: v for k, v in L.items() if not k.startswith("_")} for L in case["layers"]]}
+            return {"op": "mutparse", "top": case["top"], "mut": case["mut"], "layers": [self._mlayer(L) for L in case["layers"]]}
+        return {"op": "stack", "top": case["top"], "layers": [self._mlayer(L) for L in case["layers"]]}
 
     def model_obs(self, case, resp):
         if case["kind"] == "mutparse":
